@@ -29,6 +29,10 @@ type Spec struct {
 	// root's own and may be defined differently
 	Group     string   `json:"share_group,omitempty"`
 	ShareOnly []string `json:"share_only,omitempty"`
+	// Name / Seed (regex specs): the file name of the object ("@r" when empty) and the seed of its
+	// example generator (the default one when 0)
+	Name string `json:"name,omitempty"`
+	Seed int64  `json:"seed,omitempty"`
 }
 
 // Obj is a live object built from a spec.
@@ -42,6 +46,8 @@ type Obj struct {
 	Types  map[string]jschema.Schema // the type objects added to a schema object
 	// KeptDocs: one Document object per document of the spec, reused by every "ValidateKept" operation
 	KeptDocs map[int]jschema.Document
+	// KeptRead: what was read from a kept Document object when it was read for the first time
+	KeptRead map[int]string
 }
 
 func Build(sp *Spec) *Obj { return BuildSharing(sp, nil) }
@@ -76,7 +82,15 @@ func BuildSharing(sp *Spec, from *Obj) *Obj {
 	case "enum":
 		o.E = enum.New("@e", sp.Text)
 	case "regex":
-		o.R = libregex.New("@r", sp.Text)
+		name := sp.Name
+		if name == "" {
+			name = "@r"
+		}
+		if sp.Seed != 0 {
+			o.R = libregex.New(name, sp.Text, libregex.WithGeneratorSeed(sp.Seed))
+		} else {
+			o.R = libregex.New(name, sp.Text)
+		}
 	}
 	return o
 }
@@ -128,7 +142,7 @@ func OpsSequential(sp *Spec) []string {
 	ops := Ops(sp)
 	if sp.Kind == "schema" {
 		for i := range sp.Docs {
-			ops = append(ops, fmt.Sprintf("ValidateKept:%d", i), fmt.Sprintf("CheckKept:%d", i))
+			ops = append(ops, fmt.Sprintf("ValidateKept:%d", i), fmt.Sprintf("CheckKept:%d", i), fmt.Sprintf("ReadKept:%d", i))
 		}
 	}
 	return ops
@@ -270,6 +284,24 @@ func Do(o *Obj, op string) (res string, kept []Retained) {
 				o.KeptDocs[i] = libjson.New("doc", o.Spec.Docs[i])
 			}
 			return canonRes(lib.Safe(o.KeptDocs[i].Check)), nil
+		case len(op) > 9 && op[:9] == "ReadKept:":
+			// the kept Document object is the caller's: validating it (any number of times) reads a
+			// copy, so whoever reads it for the first time gets all of its events
+			var i int
+			fmt.Sscanf(op, "ReadKept:%d", &i)
+			if o.KeptDocs == nil {
+				o.KeptDocs = map[int]jschema.Document{}
+			}
+			if o.KeptDocs[i] == nil {
+				o.KeptDocs[i] = libjson.New("doc", o.Spec.Docs[i])
+			}
+			if o.KeptRead == nil {
+				o.KeptRead = map[int]string{}
+			}
+			if _, done := o.KeptRead[i]; !done {
+				o.KeptRead[i] = Stream(&Obj{D: o.KeptDocs[i]}, "")
+			}
+			return o.KeptRead[i], nil
 		case len(op) > 13 && op[:13] == "ValidateKept:":
 			// the same Document object every time (it has been validated, by this and maybe by
 			// other schema objects, before): the verdict is that of a fresh document
@@ -353,6 +385,17 @@ func Do(o *Obj, op string) (res string, kept []Retained) {
 		}
 	default:
 		g := o.R
+		own := o.Spec.Name
+		if own == "" {
+			own = "@r"
+		}
+		canonRes := func(r lib.Res) string {
+			c := canonRes(r)
+			if r.Lib && r.File != "" && r.File != own {
+				c += " FOREIGN-FILE: the error names the file " + r.File + ", the object was made of the file " + own
+			}
+			return c
+		}
 		switch op {
 		case "Check":
 			return canonRes(lib.Safe(g.Check)), nil
